@@ -1,4 +1,4 @@
-"""C16 -- files survive rope byte-for-byte apart from the intended edit (clauses R16.1-R16.8)."""
+"""C16 -- files survive rope byte-for-byte apart from the intended edit (clauses R16.1-R16.10)."""
 from __future__ import annotations
 
 import ast
@@ -17,6 +17,7 @@ EXPLANATION = (
     "CRLF is normalised before lone CR wherever both are replaced.  R16.5: the chooser applies no str/bytes-asymmetric "
     "method (splitlines, no-arg split/strip, is*/case methods) to its input.  Byte equality itself is a runtime fact and is "
     "not decided."
+    " R16.9: _find_coding accepts both PEP 263 delimiters and every character of the interpreter's codec names.  R16.10: the declaring line is found like tokenize.detect_encoding does (cookie pattern inclusion, two lines, stop at a first line that is neither blank nor comment)."
 )
 ASSUMPTIONS = ["str.encode() without argument means utf-8 (language definition)",
                "codec aliases are compared through codecs.lookup of the running interpreter"]
@@ -53,6 +54,8 @@ def check(ctx, res) -> None:
     undo_newline_rule(ctx, res, "R16.6")
     module_header_rule(ctx, res, "R16.7")
     first_import_line_rule(ctx, res, "R16.8")
+    coding_name_alphabet_rule(ctx, res, "R16.9")
+    cookie_line_rule(ctx, res, "R16.10")
 
 
 def _check_main(ctx, res) -> None:
@@ -159,6 +162,7 @@ def _check_main(ctx, res) -> None:
     # (d) encoder applies it
     cfg = CFG(enc.node)
     ok_d = False
+    excluded = []
     for n in cfg.nodes:
         if n.kind == "stmt" and isinstance(n.ast, ast.Assign):
             v = n.ast.value
@@ -171,9 +175,25 @@ def _check_main(ctx, res) -> None:
                 only_nl = all(all(isinstance(x, ast.Name) and x.id == "newlines" or not isinstance(x, ast.Name)
                                   for x in ast.walk(t)) for t, _ in gs)
                 ok_d = only_nl
+                # ... and the guards must let BOTH non-LF conventions through (evaluated over the finite set)
+                if only_nl:
+                    from .. import fold
+                    fd = fold.Folder(idx)
+                    for conv in ("\r\n", "\r"):
+                        for t, pol in gs:
+                            try:
+                                val = bool(fd.eval(enc.unit.modname, t, {"newlines": conv}))
+                            except fold.Unfoldable:
+                                continue
+                            if val != pol:
+                                excluded.append((conv, ast.unparse(t)))
+    if excluded:
+        ok_d = False
     res.add("R16.2", "apply", ok_d, enc.where,
-            "encoder rewrites LF to the resource's convention, guarded only by tests on that convention" if ok_d else
-            "encoder does not (unconditionally for non-LF conventions) rewrite '\\n' to the resource's newline convention")
+            "encoder rewrites LF to the resource's convention, for CRLF and for CR, guarded only by tests on that convention" if ok_d else
+            (f"the encoder's guard `{excluded[0][1]}` keeps the rewrite of '\\n' from happening for the convention {excluded[0][0]!r}: such a file is written "
+             "back with LF line ends" if excluded else
+             "encoder does not (unconditionally for non-LF conventions) rewrite '\\n' to the resource's newline convention"))
 
     # ---- R16.3 read-before-write in content changes
     cc = idx.need_class("rope.base.change.ChangeContents")
@@ -351,3 +371,129 @@ def first_import_line_rule(ctx, res, rule: str) -> None:
             f"_get_new_import_lineno answers the constant line {consts[0].value.value} for a module without imports: the import is inserted above the shebang, the "
             "coding line (which then slides below line 2 and is no longer honoured: a latin-1 file is rewritten as UTF-8) and the docstring",
             function=f.qualname)
+
+
+def coding_name_alphabet_rule(ctx, res, rule: str) -> None:
+    """R16.9: the scanner that cuts the codec name out of the coding line accepts (a) both delimiters PEP 263 allows after
+    `coding` ('=' as in vim's fileencoding=, ':' as in emacs' coding:) and (b) every character that occurs in the
+    interpreter's codec names: letters, digits, and the punctuation of encodings.aliases plus the hyphen that
+    encodings.normalize_encoding folds to '_'.  A smaller alphabet truncates `iso8859_15` to `iso8859` (= latin-1)."""
+    import encodings.aliases
+
+    idx = ctx.idx
+    f = idx.need_func("rope.base.fscommands._find_coding")
+    punct = {ch for name in list(encodings.aliases.aliases) + list(encodings.aliases.aliases.values()) for ch in name if not ch.isalnum()} | {"-"}
+    sets = []
+    for x in walk_local(f.node):
+        if isinstance(x, ast.Compare) and len(x.ops) == 1 and isinstance(x.ops[0], (ast.In, ast.NotIn)) \
+                and isinstance(x.comparators[0], ast.Constant) and isinstance(x.comparators[0].value, (bytes, str)):
+            v = x.comparators[0].value
+            sets.append((x, {chr(b) for b in v} if isinstance(v, bytes) else set(v)))
+    if len(sets) < 2:
+        raise AnalysisError("anchor=fscommands._find_coding: the delimiter test and the name alphabet are no longer constant membership tests")
+    delim = [(x, v) for x, v in sets if v & {"=", ":"}]
+    alpha = [(x, v) for x, v in sets if not (v & {"=", ":"})]
+    if not delim or not alpha:
+        raise AnalysisError("anchor=fscommands._find_coding: delimiter / alphabet tests not found")
+    for k, (x, v) in enumerate(delim, 1):
+        ok = {"=", ":"} <= v
+        res.add(rule, f"_find_coding|delimiters#{k}", ok, f"{f.unit.rel}:{x.lineno}",
+                "both PEP 263 delimiters ('=' and ':') are accepted after `coding`" if ok else
+                f"only {sorted(v)} is accepted after `coding`: a declaration written with {sorted({'=', ':'} - v)} (PEP 263 allows both) is not seen and the file "
+                "is decoded as UTF-8 / latin-1 instead of its declared encoding", function=f.qualname)
+    for k, (x, v) in enumerate(alpha, 1):
+        has_alnum = any(isinstance(c, ast.Call) and call_name(c) == "isalnum" for c in ast.walk(_enclosing_test(f.node, x)))
+        missing = sorted(punct - v)
+        ok = has_alnum and not missing
+        res.add(rule, f"_find_coding|name-alphabet#{k}", ok, f"{f.unit.rel}:{x.lineno}",
+                f"codec names may contain letters, digits and {sorted(punct)}" if ok else
+                f"the codec-name scanner stops at {missing if missing else 'letters or digits'}: a declared `iso8859_15` / `shift_jis` / `iso-8859-15` is cut at that character, so the file is read "
+                "with a different codec (or none) and non-ASCII text is not preserved", function=f.qualname)
+
+
+def _enclosing_test(fn, node):
+    """the `if`/`while` test expression that contains `node` (or node itself)"""
+    for x in walk_local(fn):
+        if isinstance(x, (ast.If, ast.While)) and any(y is node for y in ast.walk(x.test)):
+            return x.test
+    return node
+
+
+
+def cookie_line_rule(ctx, res, rule: str) -> None:
+    """R16.10: WHICH line declares the encoding is decided like the interpreter does (tokenize.detect_encoding): (a) every
+    line tokenize.cookie_re recognises is recognised by rope's coding-line pattern (exact language inclusion of the two
+    anchored prefix patterns), (b) exactly the first TWO lines are examined."""
+    import tokenize
+
+    from .. import rederiv
+    idx = ctx.idx
+    f = idx.need_func("rope.base.fscommands.read_str_coding")
+    pats = [x for x in walk_local(f.node) if isinstance(x, ast.Assign) and isinstance(x.value, ast.Constant)
+            and isinstance(x.value.value, (bytes, str)) and "coding" in (x.value.value.decode("latin-1") if isinstance(x.value.value, bytes) else x.value.value)]
+    if len(pats) != 1:
+        raise AnalysisError("anchor=fscommands.read_str_coding: the constant coding-line pattern not found")
+    v = pats[0].value.value
+    rope_pat = v.decode("latin-1") if isinstance(v, bytes) else v
+    tok_pat = tokenize.cookie_re.pattern
+    uses_match = any(isinstance(c, ast.Call) and call_name(c) == "match" for c in ast.walk(f.node))
+    if not uses_match:
+        raise AnalysisError("anchor=fscommands.read_str_coding no longer applies the pattern with re.match")
+    eng = rederiv.Engine()
+    try:
+        a = eng.term(tok_pat.lstrip("^"), ascii=True, k=rederiv.TOP)
+        b = eng.term(rope_pat.lstrip("^"), k=rederiv.TOP)
+        ok, cex, states = eng.included(a, b)
+    except rederiv.Undecided as e:
+        raise AnalysisError(f"coding-line pattern uses a construct the derivative engine does not model: {e}")
+    res.add(rule, "read_str_coding|cookie-pattern", ok, f"{f.unit.rel}:{pats[0].lineno}",
+            f"every line the interpreter takes for an encoding declaration matches rope's pattern ({states} derivative states)" if ok else
+            f"the line {cex!r} is an encoding declaration for the interpreter (tokenize.cookie_re) but not for rope: the file is decoded and re-encoded "
+            "with the default codec instead of the declared one", counter_example=cex, function=f.qualname)
+    # (c) the scan stops at the first line that is neither blank nor a comment -- decided with the same language as
+    # tokenize.blank_re
+    consts = {t.id: (x.value.value.decode("latin-1") if isinstance(x.value.value, bytes) else x.value.value)
+              for x in walk_local(f.node) if isinstance(x, ast.Assign) and isinstance(x.value, ast.Constant)
+              and isinstance(x.value.value, (bytes, str)) for t in x.targets if isinstance(t, ast.Name)}
+    stops = []
+    for lp in [x for x in walk_local(f.node) if isinstance(x, ast.For)]:
+        for st in ast.walk(lp):
+            if isinstance(st, ast.If) and isinstance(st.test, ast.UnaryOp) and isinstance(st.test.op, ast.Not) \
+                    and isinstance(st.test.operand, ast.Call) and call_name(st.test.operand) == "match" \
+                    and any(isinstance(b, (ast.Return, ast.Break)) for b in st.body):
+                a0 = st.test.operand.args[0] if st.test.operand.args else None
+                if isinstance(a0, ast.Name) and a0.id in consts:
+                    stops.append((st, consts[a0.id]))
+    if not stops:
+        res.add(rule, "read_str_coding|stops-at-code", False, f"{f.unit.rel}:{f.node.lineno}",
+                "the second line is examined whatever the first line is: `import os` / `# coding: latin-1` declares nothing for the interpreter "
+                "(tokenize.detect_encoding stops at a first line that is not blank or a comment), but rope decodes and encodes the file as latin-1",
+                function=f.qualname)
+    for k, (st, bp) in enumerate(stops, 1):
+        try:
+            ta = eng.term(tokenize.blank_re.pattern.decode("latin-1").lstrip("^"), ascii=True, k=rederiv.TOP)
+            tb = eng.term(bp.lstrip("^"), k=rederiv.TOP)
+            i1, i2 = eng.included(ta, tb), eng.included(tb, ta)
+        except rederiv.Undecided as e:
+            raise AnalysisError(f"blank-line pattern uses a construct the derivative engine does not model: {e}")
+        okb = i1[0] and i2[0]
+        res.add(rule, f"read_str_coding|stops-at-code#{k}", okb, f"{f.unit.rel}:{st.lineno}",
+                "the scan for the declaration stops at the first line that is not blank or a comment, with the interpreter's notion of blank" if okb else
+                (f"the line {i1[1]!r} is blank for the interpreter but stops rope's scan: a declaration on the line below it is missed" if not i1[0] else
+                 f"the line {i2[1]!r} is code for the interpreter but rope goes on to the next line and honours a `coding:` comment there"),
+                function=f.qualname)
+    loops = [x for x in walk_local(f.node) if isinstance(x, ast.For)]
+    bounds = []
+    for lp in loops:
+        for sub in ast.walk(lp.iter):
+            if isinstance(sub, ast.Subscript) and isinstance(sub.slice, ast.Slice) and sub.slice.lower is None \
+                    and isinstance(sub.slice.upper, ast.Constant) and isinstance(sub.slice.upper.value, int):
+                bounds.append((lp, sub.slice.upper.value))
+    if len(bounds) != 1:
+        raise AnalysisError("anchor=fscommands.read_str_coding: the loop over the first lines (`lines[:N]`) not found")
+    lp, nlines = bounds[0]
+    res.add(rule, "read_str_coding|lines-examined", nlines == 2, f"{f.unit.rel}:{lp.lineno}",
+            "the first two lines are examined for the declaration (PEP 263)" if nlines == 2 else
+            f"{nlines} line(s) are examined for the encoding declaration, the interpreter examines 2: "
+            + ("a declaration on line 2 (below a shebang) is not seen and the file is treated as UTF-8" if nlines < 2 else
+               "a `coding:` comment further down, which the interpreter ignores, changes the codec rope uses"), function=f.qualname)
